@@ -110,7 +110,13 @@ func runRemoteOrder(t testing.TB, k, m, nt int, rr *vgen.Rng) string {
 			defer wg.Done()
 			var self *actor.PID
 			if s%2 == 1 {
-				self = actor.NewPID(a.Address(), "snd/"+strconv.Itoa(s))
+				// all attached sender PIDs share one ID and differ in their address only (what the response PIDs
+				// of requests from different nodes look like when a relay forwards them with the original sender)
+				addr := a.Address()
+				if s > 1 {
+					addr = "n" + strconv.Itoa(s) + ":1"
+				}
+				self = actor.NewPID(addr, "snd/same")
 			}
 			for j := 0; j < m; j++ {
 				pid := actor.NewPID(bAddr, "tgt/t"+strconv.Itoa(plan[s][j]))
